@@ -206,8 +206,8 @@ func runC10(c *eng.Ctx) {
 	// ---- R5 consumed fields
 	r5 := c.Rule("C10.R5", "D1:propagation completeness", "every json-tagged field of the raw v1 structs is read by the converters (an option that is parsed but never consumed is silently dropped)", 40)
 	ignored := map[string]string{
-		"HookConfigV1.ConfigVersion":                          "read through VersionedUntyped",
-		"OnKubernetesEventConfigV1.ResynchronizationPeriod":   "documented as not implemented (accepted for compatibility)",
+		"HookConfigV1.ConfigVersion":                        "read through VersionedUntyped",
+		"OnKubernetesEventConfigV1.ResynchronizationPeriod": "documented as not implemented (accepted for compatibility)",
 	}
 	for _, tn := range []string{"HookConfigV1", "ScheduleConfigV1", "OnKubernetesEventConfigV1", "KubernetesAdmissionConfigV1", "KubernetesConversionConfigV1", "SettingsV1"} {
 		named := p.Named(pkgCfg, tn)
